@@ -178,3 +178,11 @@ def _q_call(ex, q, node, st):
 
 
 Exec.call_handlers["Q"] = _q_call
+
+# ---- sort keys: (x.time is None, x.time) orders by instant (ASSUMED, DESIGN 4.3: aware datetimes compare by instant)
+_KT = TTuple([TBool, Dt])
+Exec.sortkey_handlers[_KT.key] = lambda ex, k: Val(TReal, z3.If(t_get(k.t, 0), dt_ts(t_get(k.t, 1)) + 1e18, dt_ts(t_get(k.t, 1))))
+Exec.isnone_handlers["Dt"] = lambda ex, v: z3.BoolVal(False)
+Exec.isnone_handlers["Pt"] = lambda ex, v: z3.BoolVal(False)
+Exec.method_handlers[("Dt", "replace")] = lambda ex, v, node, st, rn: Val(Dt, z3.Function("dt_replace_tz", sort_of(Dt), sort_of(Dt))(v.t))
+Exec.truthy_handlers["Pt"] = lambda ex, v: z3.BoolVal(True)
